@@ -39,6 +39,7 @@ pub fn configs(prop: &str) -> Vec<Config> {
             c("boundary", 6_000, 200_000),
             c("corpus", 104, 1040),
             c("threads", 600, 6_000),
+            c("torn", 4_000, 100_000),
         ],
         "C04" => vec![
             e("truncate_all"),
